@@ -534,6 +534,10 @@ fn cold_start(ctx: &Ctx, st: &mut Stats, seed: u64, threads: usize, njobs: usize
         if let Some(d) = spy_log.parent() {
             let _ = std::fs::create_dir_all(d);
         }
+        // ... and in a working directory where files named like the workloads' relative image references exist
+        let cwd = spy_log.with_extension("cwd");
+        crate::relstage::decoy_working_directory(&cwd);
+        cmd.current_dir(&cwd);
         if !crate::relstage::hostile_environment(&mut cmd, &ctx.root, which, ["1", "C", "yes", "POSIX"][(seed >> 3) as usize % 4], &spy_log, false) {
             st.inconclusive("cold start: harness/shim/envspy.so is missing (run ./setup.sh)".to_string());
         }
@@ -573,6 +577,7 @@ fn cold_start(ctx: &Ctx, st: &mut Stats, seed: u64, threads: usize, njobs: usize
         st.count("cold_starts_in_another_process_environment", 1);
     }
     let _ = std::fs::remove_file(&spy_log);
+    let _ = std::fs::remove_dir_all(spy_log.with_extension("cwd"));
     st.count("cold_start_processes", 1);
     st.distinct(mix(seed ^ 0xc01d, threads as u64));
     if let Some((t, i)) = bad {
